@@ -45,8 +45,14 @@ CLAIMS = {
              "evaluates score = scheme on the reported indices for all six algorithms on every case; the u16 saturation for needles > 2520 characters is a KNOWN-FINDING."),
     "C04": dict(
         technique="Lean 4 theorems (early-exit soundness) + brute-force optimum oracle + model-equals-recurrence correspondence",
-        text="Partial proof. The model of the optimal matcher is the documented recurrence evaluated naively, so 'no worse than the recurrence' is the correspondence (implementation = "
-             "model on every case). Theorems: no bonus exceeds the value the early exit waits for (all presets), a candidate scan keeps the leftmost maximum and stops only at the "
+        text="Theorems. 'Never lower than the recurrence evaluated on the full matrix' (companion file C04_Window): the model evaluates the documented two-matrix recurrence on the "
+             "prefilter window h[start..end]; C04_window_is_full_matrix proves that this IS the value (score and alignment) of the same recurrence on all of h whenever the first "
+             "needle character does not occur before start and the last not at or behind end (rows over pre ++ window ++ post are the rows over the window padded with empty cells: "
+             "dpCols_window; the full matrix's columns split at the window: windowCols_split), C04_window_lossless_ascii / _unicode prove that the windows prefilter_ascii and "
+             "prefilter_non_ascii choose have that property (first occurrence of the first character, one past the last occurrence of the last), and "
+             "C04_fuzzy_is_full_matrix_ascii / _unicode state it at the fuzzy_match entry point for the matrix path (prefix preference off, needle of at least two characters, "
+             "scratch layout fits). What ties the implementation's single-row/offset compression to this recurrence is the correspondence (implementation = model on every case). "
+             "Further theorems: no bonus exceeds the value the early exit waits for (all presets), a candidate scan keeps the leftmost maximum and stops only at the "
              "maximum; the optimal matcher's recurrence never scores above the maximum over all alignments (C04_upper_bound: its value is the scheme's value of an alignment the "
              "brute-force specification enumerates; every haystack, needle, window, prefix preference off). For a one-character needle the ASCII matcher returns exactly the maximum over all alignments, at the leftmost best-placed occurrence "
              "(C04_one_char_optimum_ascii: scan invariant over every haystack; the early exit is sound because no bonus exceeds max_bonus), and so does the code-point matcher "
